@@ -153,6 +153,10 @@ def _tree_cases(prop, tier, seed, hints):
     add(pl=15, sizes=[32768 + 1], shape="single")
     add(pl=2 ** 18, sizes=[pl + 1, 0, 3 * pl], shape="deep")
     add(pl=2 ** 18, sizes=[2 ** 18 + 1], shape="single")
+    if prop == "C01":
+        add(pl=pl, sizes=[pl + 1], shape="single", again=True)
+        add(pl=pl, sizes=[pl + 1, 5], shape="flat", again=True)
+        add(pl=pl, sizes=[1, 0, 2 * pl], shape="sub", again=True)
     add(pl=None, sizes=[2 * pl + 1, 5], shape="flat")
     add(pl=None, sizes=[3 * pl + B + 1], shape="single")
     # a second piece length in the quick tier: with pl = 16 KiB a piece is one block, so the "padding piece" of the merkle tree is
@@ -451,6 +455,54 @@ def _check_single_v1(acc, prop, who, case, info, data, pl):
 
 
 # =============================================================================================== C01
+def _c01_judge(acc, who, case, meta, tree, tag=""):
+    info = meta.get("info") or {}
+    pl = _piece_length_checks(acc, "C01", who, case, info)
+    if pl is None:
+        return
+    if isinstance(tree, bytes):
+        _check_single_v1(acc, "C01" + tag, who, case, info, tree, pl)
+        return
+    if "length" in info or "files" not in info:
+        acc.fail(f"C01{tag}:{who}:multi:structure", case, f"keys {sorted(k for k in info if k in ('files', 'length'))}", "files, no length")
+        return
+    entries, disk = _entries(info), _disk(tree)
+    pads = [e for e in entries if e[0]]
+    if pads:
+        acc.fail(f"C01{tag}:{who}:files:padding-entry-without-align", case, pads[:3], "no padding entries")
+    if not _check_listed_files(acc, "C01" + tag, who, case, entries, disk):
+        return
+    pieces = info.get("pieces")
+    if not isinstance(pieces, (bytes, bytearray)) or len(pieces) % 20:
+        acc.fail(f"C01{tag}:{who}:pieces:malformed", case, type(pieces).__name__, "string of 20-byte hashes")
+        return
+    want = ref.v1_pieces(_listed_stream(entries, disk), pl)
+    if bytes(pieces) != want:
+        cls = "with-empty-file" if any(n == 0 for _, _, n in entries) else "no-empty-file"
+        acc.fail(f"C01{tag}:{who}:multi:pieces-mismatch:{cls}", case,
+                 f"{len(pieces) // 20} hashes; listing {[n for _, _, n in entries]}", f"{len(want) // 20} hashes of the listed stream")
+
+
+def _grow(d, payload, tree):
+    """change the payload in place (same path string): the first file grows by 7 bytes, a new file appears.  Returns the new tree"""
+    if isinstance(tree, bytes):
+        with open(payload, "ab") as fh:
+            fh.write(b"G" * 7)
+        return tree + b"G" * 7
+    new = dict(tree)
+    for k in sorted(new):
+        if isinstance(new[k], bytes):
+            with open(os.path.join(payload, k), "ab") as fh:
+                fh.write(b"G" * 7)
+            new[k] = new[k] + b"G" * 7
+            break
+    extra = b"N" * (B + 3)
+    with open(os.path.join(payload, "zz_new.bin"), "wb") as fh:
+        fh.write(extra)
+    new["zz_new.bin"] = extra
+    return new
+
+
 def _c01_case(acc, case):
     who = "TorrentFile"
     with tempdir() as d:
@@ -459,31 +511,15 @@ def _c01_case(acc, case):
         if err:
             acc.fail(f"C01:{who}:{err[0]}", case, err[1], "metafile")
             return
-        info = meta.get("info") or {}
-        pl = _piece_length_checks(acc, "C01", who, case, info)
-        if pl is None:
-            return
-        if isinstance(tree, bytes):
-            _check_single_v1(acc, "C01", who, case, info, tree, pl)
-            return
-        if "length" in info or "files" not in info:
-            acc.fail(f"C01:{who}:multi:structure", case, f"keys {sorted(k for k in info if k in ('files', 'length'))}", "files, no length")
-            return
-        entries, disk = _entries(info), _disk(tree)
-        pads = [e for e in entries if e[0]]
-        if pads:
-            acc.fail(f"C01:{who}:files:padding-entry-without-align", case, pads[:3], "no padding entries")
-        if not _check_listed_files(acc, "C01", who, case, entries, disk):
-            return
-        pieces = info.get("pieces")
-        if not isinstance(pieces, (bytes, bytearray)) or len(pieces) % 20:
-            acc.fail(f"C01:{who}:pieces:malformed", case, type(pieces).__name__, "string of 20-byte hashes")
-            return
-        want = ref.v1_pieces(_listed_stream(entries, disk), pl)
-        if bytes(pieces) != want:
-            cls = "with-empty-file" if any(n == 0 for _, _, n in entries) else "no-empty-file"
-            acc.fail(f"C01:{who}:multi:pieces-mismatch:{cls}", case,
-                     f"{len(pieces) // 20} hashes; listing {[n for _, _, n in entries]}", f"{len(want) // 20} hashes of the listed stream")
+        _c01_judge(acc, who, case, meta, tree)
+        if case.get("again"):
+            # the same path string again after the content changed (results must describe the files on disk NOW)
+            tree2 = _grow(d, payload, tree)
+            meta2, err = _create(d, payload, who, case["pl"], case.get("progress", 0))
+            if err:
+                acc.fail(f"C01:again:{who}:{err[0]}", case, err[1], "metafile")
+                return
+            _c01_judge(acc, who, case, meta2, tree2, tag=":again")
 
 
 @harness("C01")
